@@ -67,7 +67,7 @@ type Conn struct {
 	parked       bool
 	readCalls    int64
 	// FailWrites makes broker-side writes fail (a peer that vanished without closing).
-	failWrites bool
+	failWrites       bool
 	writesAfterClose int64
 }
 
